@@ -7,6 +7,7 @@ import (
 	"fmt"
 	"math/rand"
 	"os"
+	"sync"
 
 	"verifharness/pkg/emit"
 )
@@ -20,14 +21,58 @@ type c06In struct {
 	Backend string     `json:"backend,omitempty"` // "" = in-memory double, "filestorage" = the real FileStorage on a temp directory
 }
 
-// c06RunCase runs one history on the real code and emits the case.
-func c06RunCase(w *emit.Writer, in c06In, origin string) {
+// c06Result: one executed history, ready to be added to the writer (histories run in parallel, the
+// writer is fed in input order).
+type c06Result struct {
+	c     emit.Case
+	hist  []string
+	notes []string
+	skip  string
+}
+
+func c06RunCase(w *emit.Writer, in c06In, origin string) { c06Emit(w, c06Exec(in, origin)) }
+
+func c06Emit(w *emit.Writer, r c06Result) {
+	if r.skip != "" {
+		w.Meta.Notes = append(w.Meta.Notes, r.skip)
+		return
+	}
+	for _, h := range r.hist {
+		w.Hist(h)
+	}
+	w.Meta.Notes = append(w.Meta.Notes, r.notes...)
+	w.Add(r.c)
+}
+
+// c06RunAll executes the histories with a small worker pool and emits them in order.
+func c06RunAll(w *emit.Writer, ins []c06In, origins []string) {
+	out := make([]c06Result, len(ins))
+	sem := make(chan struct{}, 6)
+	var wg sync.WaitGroup
+	for i := range ins {
+		wg.Add(1)
+		sem <- struct{}{}
+		go func(i int) {
+			defer wg.Done()
+			defer func() { <-sem }()
+			out[i] = c06Exec(ins[i], origins[i])
+		}(i)
+	}
+	wg.Wait()
+	for _, r := range out {
+		c06Emit(w, r)
+	}
+}
+
+// c06Exec runs one history on the real code.
+func c06Exec(in c06In, origin string) (res c06Result) {
+	hist := func(h string) { res.hist = append(res.hist, h) }
 	bw := c06NewWorld(in.Cfg, in.Subj)
 	var fw *c07FSWorld
 	if in.Backend == "filestorage" {
 		dir, err := os.MkdirTemp("", "c06fs-")
 		if err != nil {
-			w.Meta.Notes = append(w.Meta.Notes, "filestorage history skipped: "+err.Error())
+			res.skip = "filestorage history skipped: " + err.Error()
 			return
 		}
 		defer os.RemoveAll(dir)
@@ -94,34 +139,33 @@ func c06RunCase(w *emit.Writer, in c06In, origin string) {
 			}
 		}
 		opsSeen[h.Op] = true
-		w.Hist("op=" + h.Op)
-		w.Hist(fmt.Sprintf("op_res=%s/%d", h.Op, o.Res))
+		hist("op=" + h.Op)
+		hist(fmt.Sprintf("op_res=%s/%d", h.Op, o.Res))
 	}
-	w.Hist("subject=" + in.Subj.Kind)
-	w.Hist(fmt.Sprintf("issuers=%d", in.Cfg.N))
-	w.Hist(fmt.Sprintf("reuse=%v", in.Cfg.Reuse))
-	w.Hist(fmt.Sprintf("policy_random=%v", in.Cfg.Rnd))
-	w.Hist("keytype=" + in.Cfg.KeyType)
-	w.Hist(fmt.Sprintf("issuances=%d", min(issuances, 6)))
-	w.Hist("class=" + class)
-	w.Hist("symptom=" + symptom)
+	hist("subject=" + in.Subj.Kind)
+	hist(fmt.Sprintf("issuers=%d", in.Cfg.N))
+	hist(fmt.Sprintf("reuse=%v", in.Cfg.Reuse))
+	hist(fmt.Sprintf("policy_random=%v", in.Cfg.Rnd))
+	hist("keytype=" + in.Cfg.KeyType)
+	hist(fmt.Sprintf("issuances=%d", min(issuances, 6)))
+	hist("class=" + class)
+	hist("symptom=" + symptom)
 	if in.Backend == "" {
-		w.Hist("backend=memory")
+		hist("backend=memory")
 	} else {
-		w.Hist("backend=" + in.Backend)
+		hist("backend=" + in.Backend)
 	}
-	w.Hist(fmt.Sprintf("forward_history=%v", fwd))
-	w.Hist(fmt.Sprintf("forward_prefix_ops=%d", min(fwdSteps, 6)))
-	for _, n := range bw.oracleNotes {
-		w.Meta.Notes = append(w.Meta.Notes, n)
-	}
+	hist(fmt.Sprintf("forward_history=%v", fwd))
+	hist(fmt.Sprintf("forward_prefix_ops=%d", min(fwdSteps, 6)))
+	res.notes = append(res.notes, bw.oracleNotes...)
 	key, _ := json.Marshal(in)
-	w.Add(emit.Case{
+	res.c = emit.Case{
 		Desc: map[string]any{"class": class, "subject_kind": in.Subj.Kind, "issuers": in.Cfg.N, "reuse": in.Cfg.Reuse,
 			"policy_random": in.Cfg.Rnd, "keytype": in.Cfg.KeyType, "origin": origin, "steps": len(in.Steps),
 			"spelling_dirs_differ": bw.sLoad != bw.sSave, "symptom": symptom, "backend": in.Backend},
 		In: in, Obs: obsAll, Wire: e.String(),
-		Nontrivial: issuances >= 1 && len(in.Steps) >= 2, Key: string(key)})
+		Nontrivial: issuances >= 1 && len(in.Steps) >= 2, Key: string(key)}
+	return res
 }
 
 // kcRevokedWithOtherBundle: looks at the raw storage the way the harness monitor does: is the
@@ -322,14 +366,16 @@ func c06Run(tier string, seed int64, outdir string, replay string) error {
 		c06RunCase(w, in, "replay")
 		return nil
 	}
+	var ins []c06In
+	var origins []string
 	for _, in := range c06Corpus() {
-		c06RunCase(w, in, "corpus")
+		ins, origins = append(ins, in), append(origins, "corpus")
 	}
 	// the same corpus, and a share of the random histories, on the real FileStorage (real files, real
 	// Safe() file names on a real file system, FileStorage's own locks)
 	for _, in := range c06Corpus() {
 		in.Backend = "filestorage"
-		c06RunCase(w, in, "corpus-fs")
+		ins, origins = append(ins, in), append(origins, "corpus-fs")
 	}
 	n := 700
 	if tier == "thorough" {
@@ -341,8 +387,9 @@ func c06Run(tier string, seed int64, outdir string, replay string) error {
 		if i%8 == 7 {
 			in.Backend = "filestorage"
 		}
-		c06RunCase(w, in, "random")
+		ins, origins = append(ins, in), append(origins, "random")
 	}
+	c06RunAll(w, ins, origins)
 	canonNote := emit.OracleCheck{Name: "canonical names: Safe(idna(name)) = Safe(name) for every canonical subject used (model's [canon])", OK: len(w.Meta.Notes) == 0}
 	if !canonNote.OK {
 		canonNote.Detail = w.Meta.Notes[0]
